@@ -37,6 +37,8 @@ SHIMS = ["math.isclose -> CPython's documented formula over reals (symx.core.isc
 def main(tier: str) -> int:
     rep = runner.Report("C02", tier, "other")
     tasks = families.applicable_tasks(tier, runner.seed())
+    n_first = len(tasks)
+    tasks += families.applicable_again_tasks(tier, runner.seed())
     tw = twins()
     results = runner.pmap(callsym.run_task, tasks + tw, chunksize=4)
     summarize(rep, tasks, results[: len(tasks)], "applicable")
@@ -46,7 +48,10 @@ def main(tier: str) -> int:
     rep.coverage["vacuity_twins"] = {"run": len(tw), "violated_as_required": len(tw) - len(rep.twins_failed)}
     rep.coverage["functions_executed_symbolically"] = FUNCTIONS
     rep.coverage["shims"] = SHIMS
+    rep.coverage["queried_after_another_state_by_the_same_operator_object"] = len(tasks) - n_first
     rep.coverage["bounds"] = {
+        "second_query": "programs with a numeric comparison are also queried by an operator object that has answered a query "
+                        "about another state (same facts, independent fluent values) before",
         "programs": "curated core (every construct alone and pairs) + VERIF_SEED-sampled preconditions: conjunctions of "
                     "<=3 literals, one nested and/or of <=3 literals, one forall over t1/t3 with and/or body of <=2 literals; "
                     "numeric comparison literals with expression depth <=2",
@@ -91,7 +96,9 @@ def summarize(rep: runner.Report, tasks, results, mode):
         if r["outcome"] == "violation":
             for cx in r["cex"][:1]:
                 rep.violation(f"{t['label']} args={t['args']}: {cx['what']}",
-                              {"property": rep.prop, "kind": "callsym", "task": t, "atoms_true": cx["atoms_true"],
+                              {"property": rep.prop, "kind": "callsym",
+                               "task": dict(t, other_fluents=r["other_fluents"]) if r.get("other_fluents") else t,
+                               "atoms_true": cx["atoms_true"],
                                "fluents": cx["fluents"], "observed_vs_expected": cx["replay"]})
         elif r["outcome"] == "inconclusive":
             rep.inconclusive.append(f"{t['label']} {t['args']}: {r.get('detail')}")
